@@ -1,5 +1,69 @@
-(* placeholder while the pipeline is brought up; replaced by the real theorems *)
-From BT Require Import Base.ListX NQueue.NQueueModel NQueue.NQueueSpec.
-Example C12_pipeline_smoke : monitor [2%nat;1%nat] (run (init [2%nat;1%nat]) [QueueN 0; QueueI 2; QueueN 2; Dequeue; Dequeue; Dequeue; Dequeue]) = None.
+(* C12  Outgoing notification queue is a fair priority queue.
+   Statements only; proofs live in NQueue/NQueueProofs.v. *)
+From BT Require Import Base.ListX Base.Bits2 NQueue.NQueueModel NQueue.NQueueSpec NQueue.NQueueProofs.
+
+(* For every priority partition whose levels hold at least one characteristic (levels of one
+   characteristic are the specialised implementation, all others the packed one) and every
+   sequence of queue_notification / queue_indication / dequeue / indication_confirmed / clear
+   operations of any length, the trace of the model is accepted by the monitor, i.e.
+     - queue_* reports 'newly queued' exactly when the (characteristic, kind) was not pending,
+     - a dequeued request was pending and is removed (dequeued exactly once),
+     - no indication is dequeued while one is outstanding,
+     - every higher-priority level had no eligible request, 'empty' only if none has one,
+     - within a level an eligible request is overtaken by at most Size-1 dequeues of other
+       characteristics of that level (round robin).
+   The monitor treats levels of size 1 exactly like all others. *)
+Theorem C12_queue_is_fair_priority_set :
+  forall (sizes : list nat) (ops : list op),
+    wf_sizes sizes -> monitor sizes (run (init sizes) ops) = None.
+Proof. exact monitor_accepts_model. Qed.
+Print Assumptions C12_queue_is_fair_priority_set.
+
+(* the packed representation: reading a 2-bit field after |= / &= ~ on the same or another field *)
+Theorem C12_packed_fields_independent :
+  forall (q : list N) (n i j : nat) (v : N),
+    bytes_ok q -> length q = nbytes n -> (i < n)%nat -> (v < 4)%N ->
+    get2 (or2 q i v) i = N.lor (get2 q i) v /\ get2 (clr2 q i v) i = N.ldiff (get2 q i) v /\
+    (i <> j -> get2 (or2 q i v) j = get2 q j /\ get2 (clr2 q i v) j = get2 q j).
+Proof.
+  intros q n i j v Hq Hl Hi Hv. split; [|split].
+  - exact (get2_or2_eq q n i v Hq Hl Hi Hv).
+  - exact (get2_clr2_eq q n i v Hq Hl Hi Hv).
+  - intros Hij. split.
+    + exact (get2_or2_neq q n i v Hq Hl Hi Hv j Hij).
+    + exact (get2_clr2_neq q n i v Hq Hl Hi Hv j Hij).
+Qed.
+Print Assumptions C12_packed_fields_independent.
+
+(* the C++ offsets (index*2/8, (index*2)%8) are the ones the model uses *)
+Theorem C12_offsets_agree : forall i : nat, (i * 2 / 8 = boff i /\ (i * 2) mod 8 = slot i * 2)%nat.
+Proof. exact offsets_agree. Qed.
+Print Assumptions C12_offsets_agree.
+
+(* non-vacuity: a three-level partition with a single-entry level satisfies wf_sizes, and the
+   monitor is not trivially accepting: it rejects the behaviour of the size-1 level before the fix
+   (second request of the other kind reported as already queued) *)
+Example C12_wf_nonvacuous : wf_sizes [3; 1; 2]%nat.
+Proof. repeat constructor. Qed.
+
+Example C12_monitor_rejects_dropped_request :
+  monitor [1%nat] [(QueueI 0, OBool true); (QueueN 0, OBool false)] = Some (1%nat, t_newly_queued).
 Proof. vm_compute. reflexivity. Qed.
-Print Assumptions C12_pipeline_smoke.
+
+Example C12_monitor_rejects_priority_inversion :
+  monitor [1; 2]%nat [(QueueN 0, OBool true); (QueueN 2, OBool true); (Dequeue, OEntry (Some (KNotif, 2%nat)))]
+  = Some (2%nat, t_deq_priority).
+Proof. vm_compute. reflexivity. Qed.
+
+Example C12_monitor_rejects_starvation :
+  monitor [2%nat] [(QueueN 0, OBool true); (QueueN 1, OBool true); (Dequeue, OEntry (Some (KNotif, 0%nat)));
+                   (QueueN 0, OBool true); (Dequeue, OEntry (Some (KNotif, 0%nat)))]
+  = Some (4%nat, t_deq_round).
+Proof. vm_compute. reflexivity. Qed.
+
+(* constants regenerated from notification_queue.hpp on every run: the model's kbit / 2 bits per
+   characteristic are the code's *)
+From BT Require gen.GenNQueue.
+Example C12_constants_are_the_codes :
+  GenNQueue.bits_per_characteristc = 2%N /\ GenNQueue.notification_bit = kbit KNotif /\ GenNQueue.indication_bit = kbit KInd.
+Proof. repeat split; reflexivity. Qed.
